@@ -276,6 +276,10 @@ def generate(rng, tier):
             # layout - an empty format by default: the table shows the new records like a fresh table would
             ops.append({"op": "refresh", "keep": rng.choice(["half", "odd", "all", "first"]),
                         "which": rng.choice(["empty", "empty", "semi", "semi2", "none_cols"])})
+        elif r < 0.9685 and table.get("wtypes"):
+            # the application changes a setting of its long-lived field type object ("wide mode") while tables
+            # that use it are on display
+            ops.append({"op": "ft_change", "max_width": rng.choice([3, 12, 40]), "min_width": rng.choice([None, 0, 2])})
         elif r < 0.97:
             ops.append({"op": "fmt_obj_ctor"})
             if struct in ("recfields", "recfields_pos") and rng.random() < 0.7:
@@ -794,6 +798,13 @@ def execute(trace, rng):
                 c.printed = False
                 c.expect = None
                 invalidate_tasks(w, c)
+            elif k == "ft_change":
+                for ftype in w.wtypes.values():
+                    if hasattr(ftype, "max_width") and not hasattr(ftype, "units"):
+                        ftype.max_width = max(op["max_width"], ftype.min_width if op.get("min_width") is None else op["min_width"])
+                        if op.get("min_width") is not None:
+                            ftype.min_width = op["min_width"]
+                        w.stats["field_type_settings_changed"] = w.stats.get("field_type_settings_changed", 0) + 1
             elif k == "other_report":
                 if w.spec.get("struct") not in ("recfields", "recfields_pos"):
                     continue
